@@ -17,7 +17,7 @@ fn pick(id: &str) -> Option<Box<dyn Check>> {
         "C06" => Some(Box::new(props::C06)),
         "C07" => Some(Box::new(e1::checks2::C07)),
         "C18" => Some(Box::new(e1::checks2::C18)),
-        "C19" => Some(Box::new(e1::checks::C19)),
+        "C19" => Some(Box::new(props::C19)),
         "C20" => Some(Box::new(props::C20)),
         _ => None,
     }
